@@ -44,3 +44,15 @@ Print Assumptions C08_no_deadlock.
 Theorem C08_workers_clamped : forall conc, Nat.max 1 conc >= 1 /\ (1 <= conc -> Nat.max 1 conc = conc).
 Proof. exact C08_workers_clamped_glue. Qed.
 Print Assumptions C08_workers_clamped.
+
+(* the upper bound on the log: the observer may note the calls in flight at any moment of any
+   schedule (TNote); every note lists at most `workers` calls.  This is what the check reads off
+   the implementation's notes (parks_ok), proved of every run - hence of the model run of the
+   correspondence check (C07_model_run_is_a_schedule) *)
+From Flyt Require Import ParkBound.
+Theorem C08_notes_bounded :
+  forall (o : oracle) c nd (items : list val) stopmode nworkers qcap s0 sched,
+    ParkOK nworkers (log s0) ->
+    ParkOK nworkers (log (base (brun o c nd items stopmode qcap (binit items nworkers s0) sched))).
+Proof. exact notes_bounded_lemma. Qed.
+Print Assumptions C08_notes_bounded.
